@@ -115,7 +115,7 @@ Proof.
 Qed.
 
 (* ---- every frame whatsoever is forwarded when the mode in force for its sender is log-only or disabled *)
-Lemma prog_total m f : (14 <= length f)%nat -> exists mac proto, rd f 6 6 = Some mac /\ rd f 12 2 = Some proto.
+Lemma prog_total (f : bytes) : (14 <= length f)%nat -> exists mac proto, rd f 6 6 = Some mac /\ rd f 12 2 = Some proto.
 Proof.
   intros H. destruct (rd_some f 6 6 ltac:(lia)) as (mac & Hm). destruct (rd_some f 12 2 ltac:(lia)) as (p & Hp). eauto.
 Qed.
@@ -125,7 +125,7 @@ Theorem mode_forwards_all : forall m f mo, (mo = MODE_LOG_ONLY \/ mo = MODE_DISA
 Proof.
   intros m f mo Hmo Hall. unfold forwards, verdict_of.
   destruct (Nat.ltb (length f) 14) eqn:El; [apply Nat.ltb_lt in El; rewrite short_frame_forwards by exact El; reflexivity|].
-  apply Nat.ltb_ge in El. destruct (prog_total m f El) as (mac & proto & Hmac & Hproto).
+  apply Nat.ltb_ge in El. destruct (prog_total f El) as (mac & proto & Hmac & Hproto).
   specialize (Hall mac Hmac). unfold antispoof_prog.
   replace (Nat.ltb (length f) 14) with false by (symmetry; apply Nat.ltb_ge; lia).
   rewrite Hmac, Hproto. fold (default_mode m). fold (binding_of m mac).
@@ -147,7 +147,7 @@ Theorem non_ip_forwards : forall m f proto, rd f 12 2 = Some proto -> proto <> [
 Proof.
   intros m f proto Hp H4 H6. unfold forwards, verdict_of.
   destruct (Nat.ltb (length f) 14) eqn:El; [apply Nat.ltb_lt in El; rewrite short_frame_forwards by exact El; reflexivity|].
-  apply Nat.ltb_ge in El. destruct (prog_total m f El) as (mac & proto' & Hmac & Hproto). rewrite Hp in Hproto. inversion Hproto; subst proto'.
+  apply Nat.ltb_ge in El. destruct (prog_total f El) as (mac & proto' & Hmac & Hproto). rewrite Hp in Hproto. inversion Hproto; subst proto'.
   unfold antispoof_prog. replace (Nat.ltb (length f) 14) with false by (symmetry; apply Nat.ltb_ge; lia).
   rewrite Hmac, Hp. rewrite (bytes_eqb_neq _ _ H4), (bytes_eqb_neq _ _ H6).
   destruct (_ =? MODE_DISABLED); reflexivity.
@@ -157,7 +157,7 @@ Theorem truncated_ip_forwards : forall m f, (length f < 34)%nat -> rd f 12 2 = S
 Proof.
   intros m f Hl Hp. unfold forwards, verdict_of.
   destruct (Nat.ltb (length f) 14) eqn:El; [apply Nat.ltb_lt in El; rewrite short_frame_forwards by exact El; reflexivity|].
-  apply Nat.ltb_ge in El. destruct (prog_total m f El) as (mac & proto' & Hmac & Hproto). rewrite Hp in Hproto. inversion Hproto; subst proto'.
+  apply Nat.ltb_ge in El. destruct (prog_total f El) as (mac & proto' & Hmac & Hproto). rewrite Hp in Hproto. inversion Hproto; subst proto'.
   unfold antispoof_prog. replace (Nat.ltb (length f) 14) with false by (symmetry; apply Nat.ltb_ge; lia).
   rewrite Hmac, Hp. cbn [bytes_eqb N.eqb Pos.eqb andb].
   replace (Nat.ltb (length f) 34) with true by (symmetry; apply Nat.ltb_lt; lia).
@@ -169,7 +169,7 @@ Theorem never_oob : forall m f, verdict_of m f <> AOob.
 Proof.
   intros m f. unfold verdict_of.
   destruct (Nat.ltb (length f) 14) eqn:El; [apply Nat.ltb_lt in El; rewrite short_frame_forwards by exact El; discriminate|].
-  apply Nat.ltb_ge in El. destruct (prog_total m f El) as (mac & proto & Hmac & Hproto).
+  apply Nat.ltb_ge in El. destruct (prog_total f El) as (mac & proto & Hmac & Hproto).
   unfold antispoof_prog. replace (Nat.ltb (length f) 14) with false by (symmetry; apply Nat.ltb_ge; lia).
   rewrite Hmac, Hproto. destruct (_ =? MODE_DISABLED); [discriminate|].
   destruct (bytes_eqb proto [8; 0]).
@@ -181,4 +181,133 @@ Proof.
     destruct (Nat.ltb (length f) 54) eqn:E54; [discriminate|]. apply Nat.ltb_ge in E54.
     destruct (rd_some f 22 16 ltac:(lia)) as (src & Hs). rewrite Hs.
     match goal with |- context [if ?c then (ARet TC_ACT_SHOT, _) else _] => destruct c end; discriminate.
+Qed.
+
+(* ---- loose mode *)
+Theorem loose_v4_iff_in_range : forall m f mac src,
+  v4_frame f mac src -> eff_mode m mac = MODE_LOOSE -> (forwards m f <-> in_ranges (a_ranges m) src = true).
+Proof.
+  intros m f mac src Hf Hm. unfold forwards. rewrite (prog_v4 m f mac src Hf) by (rewrite Hm; discriminate).
+  unfold v4_allowed. rewrite Hm. cbn [N.eqb Pos.eqb MODE_LOOSE MODE_LOG_ONLY].
+  destruct (in_ranges (a_ranges m) src); split; intros H; try reflexivity; discriminate.
+Qed.
+
+(* what [in_ranges] means: some configured (prefix length <= 32, data) agrees with the source on its first
+   prefix-length bits *)
+Lemma in_ranges_spec rs ip : in_ranges rs ip = true <->
+  exists plen d, In (plen, d) rs /\ plen <= 32 /\ bits_match (N.to_nat plen) d ip = true.
+Proof.
+  unfold in_ranges. rewrite existsb_exists. split.
+  - intros ([plen d] & Hin & H). cbn [fst snd] in H. apply andb_true_iff in H. destruct H as (H1 & H2).
+    exists plen, d. repeat split; try assumption. lia.
+  - intros (plen & d & Hin & Hle & Hb). exists (plen, d). split; [exact Hin|]. cbn [fst snd].
+    apply andb_true_iff. split; [lia|exact Hb].
+Qed.
+
+Definition v6_test_frame : bytes :=
+  [255;255;255;255;255;255; 2;0;0;0;0;1; 134;221] ++ [96;0;0;0;0;8;17;64] ++
+  [32;1;13;184;0;0;0;0;0;0;0;0;0;0;0;99] ++ [32;1;13;184;0;0;0;0;0;0;0;0;0;0;0;1].
+Definition loose_unbound : amaps := {| a_cfg := Some [2;1;0;0;0;0;0;0]; a_bind := []; a_ranges := [] |}.
+
+Definition loose_v6_statement : Prop := forall m f mac src,
+  v6_frame f mac src -> eff_mode m mac = MODE_LOOSE -> drops m f.   (* no IPv6 range can be configured *)
+
+Theorem loose_v6_refuted : ~ loose_v6_statement.
+Proof.
+  intros H. specialize (H loose_unbound v6_test_frame [2;0;0;0;0;1] [32;1;13;184;0;0;0;0;0;0;0;0;0;0;0;99]).
+  assert (Hd : drops loose_unbound v6_test_frame).
+  { apply H; [repeat split; try reflexivity; try (cbn; lia)|reflexivity]. }
+  vm_compute in Hd. discriminate.
+Qed.
+
+Theorem loose_v6_partial : forall m f mac src b,
+  v6_frame f mac src -> eff_mode m mac = MODE_LOOSE ->
+  binding_of m mac = Some b -> nthb b 21 <> 0 -> src <> firstn 16 (skipn 4 b) -> drops m f.
+Proof.
+  intros m f mac src b Hf Hm Hb Hv Hne. unfold drops. rewrite (prog_v6 m f mac src Hf) by (rewrite Hm; discriminate).
+  unfold v6_allowed. rewrite Hb, Hm.
+  replace (nthb b 21 =? 0) with false by (symmetry; apply N.eqb_neq; exact Hv).
+  rewrite (bytes_eqb_neq _ _ Hne). reflexivity.
+Qed.
+
+(* ---- through the manager *)
+Definition after (s : state) (ops : list op) : state := fold_left (fun st o => fst (fst (step st o))) ops s.
+
+Lemma m_get_put m : forall k v, m_get (m_put m k v) k = Some v.
+Proof.
+  induction m as [|[k' v'] m IH]; intros k v; cbn; [rewrite bytes_eqb_refl; reflexivity|].
+  destruct (bytes_eqb k k') eqn:E; cbn; [rewrite bytes_eqb_refl; reflexivity|].
+  destruct (lex_leb k k'); cbn; [rewrite bytes_eqb_refl; reflexivity|]. rewrite E. apply IH.
+Qed.
+
+Definition mac1 : bytes := [2; 17; 34; 51; 68; 85].
+Definition v4_test_frame (src : bytes) : bytes :=
+  [255;255;255;255;255;255] ++ mac1 ++ [8;0] ++ [69;0;0;40;0;0;0;0;64;17;0;0] ++ src ++ [192;0;2;1].
+
+Definition binding_takes_effect_statement : Prop := forall s mac ip f src,
+  length mac = 6%nat -> length ip = 4%nat -> mgr_mode s = MODE_STRICT -> v4_frame f mac src ->
+  (forwards (maps (after s [AddBinding mac ip])) f <-> src = ip).
+
+Theorem binding_takes_effect_refuted : ~ binding_takes_effect_statement.
+Proof.
+  intros H. specialize (H init mac1 [10;20;30;40] (v4_test_frame [10;20;30;40]) [10;20;30;40]).
+  assert (Hf : forwards (maps (after init [AddBinding mac1 [10;20;30;40]])) (v4_test_frame [10;20;30;40])).
+  { apply H; try reflexivity. repeat split; try reflexivity; try (cbn; lia). }
+  vm_compute in Hf. discriminate.
+Qed.
+
+(* ... and the mirror image of the address is admitted instead *)
+Theorem binding_admits_mirror_image :
+  forwards (maps (after init [AddBinding mac1 [10;20;30;40]])) (v4_test_frame [40;30;20;10]).
+Proof. vm_compute. reflexivity. Qed.
+
+Theorem binding_takes_effect_partial : forall s mac ip f src,
+  length mac = 6%nat -> length ip = 4%nat -> palin4 ip = true -> mgr_mode s = MODE_STRICT -> v4_frame f mac src ->
+  (forwards (maps (after s [AddBinding mac ip])) f <-> src = ip).
+Proof.
+  intros s mac ip f src Hmac Hip Hpal Hmode Hf.
+  destruct ip as [|a [|b [|c [|d [|]]]]]; try discriminate.
+  assert (Hrev : [d; c; b; a] = [a; b; c; d]) by (symmetry; apply bytes_eqb_eq; exact Hpal).
+  unfold after. cbn [fold_left step]. rewrite Hmac. cbn [length N.of_nat Pos.of_succ_nat Pos.succ N.eqb Pos.eqb negb].
+  cbn [to4 length N.of_nat Pos.of_succ_nat Pos.succ N.eqb Pos.eqb rev app fst]. rewrite Hmode.
+  set (v := mk_binding [d; c; b; a] zero16 1 0 MODE_STRICT).
+  set (m' := maps (set_bind s (m_put (a_bind (maps s)) (mac_key mac) v))).
+  assert (Hb : binding_of m' mac = Some v) by (unfold binding_of, m'; cbn [maps set_bind a_bind]; apply m_get_put).
+  assert (He : eff_mode m' mac = MODE_STRICT) by (unfold eff_mode; rewrite Hb; reflexivity).
+  rewrite (strict_iff_equal_v4 m' f mac src Hf He). rewrite Hb. split.
+  - intros (b' & Hb' & _ & Hs). inversion Hb'; subst b'. rewrite Hs. cbn. exact Hrev.
+  - intros ->. exists v. repeat split; [cbn; discriminate|cbn; symmetry; exact Hrev].
+Qed.
+
+(* AddBinding after AddBindingV6 erases the IPv6 binding; the other order keeps both *)
+Definition ip6_1 : bytes := [32;1;13;184;0;0;0;0;0;0;0;0;0;0;0;99].
+
+Definition v6_binding_survives_statement : Prop := forall s mac ip4 ip6 f,
+  length mac = 6%nat -> length ip4 = 4%nat -> length ip6 = 16%nat -> mgr_mode s = MODE_STRICT -> v6_frame f mac ip6 ->
+  forwards (maps (after s [AddBindingV6 mac ip6; AddBinding mac ip4])) f.
+
+Theorem v6_binding_survives_refuted : ~ v6_binding_survives_statement.
+Proof.
+  intros H. specialize (H init [2;0;0;0;0;1] [7;7;7;7] ip6_1 v6_test_frame).
+  assert (Hf : forwards (maps (after init [AddBindingV6 [2;0;0;0;0;1] ip6_1; AddBinding [2;0;0;0;0;1] [7;7;7;7]])) v6_test_frame).
+  { apply H; try reflexivity. repeat split; try reflexivity; try (cbn; lia). }
+  vm_compute in Hf. discriminate.
+Qed.
+
+Theorem v6_binding_survives_partial : forall s mac ip4 ip6 f,
+  length mac = 6%nat -> length ip4 = 4%nat -> length ip6 = 16%nat -> mgr_mode s = MODE_STRICT -> v6_frame f mac ip6 ->
+  forwards (maps (after s [AddBinding mac ip4; AddBindingV6 mac ip6])) f.
+Proof.
+  intros s mac ip4 ip6 f Hmac H4 H6 Hmode Hf.
+  destruct ip4 as [|a [|b [|c [|d [|]]]]]; try discriminate.
+  do 16 (destruct ip6 as [|? ip6]; [discriminate|]). destruct ip6; [|discriminate].
+  unfold after. cbn [fold_left step]. rewrite Hmac. cbn [length N.of_nat Pos.of_succ_nat Pos.succ N.eqb Pos.eqb negb].
+  cbn [to4 length N.of_nat Pos.of_succ_nat Pos.succ N.eqb Pos.eqb rev app fst].
+  cbn [maps set_bind a_bind a_cfg a_ranges mgr_mode]. rewrite m_get_put. rewrite Hmode.
+  cbn [to16 length N.of_nat Pos.of_succ_nat Pos.succ N.eqb Pos.eqb].
+  match goal with |- forwards {| a_cfg := _; a_bind := m_put ?mm ?k ?v; a_ranges := _ |} _ =>
+    set (v2 := v); set (m' := {| a_cfg := a_cfg (maps s); a_bind := m_put mm k v2; a_ranges := a_ranges (maps s) |}) end.
+  assert (Hb : binding_of m' mac = Some v2) by (unfold binding_of, m'; cbn [a_bind]; apply m_get_put).
+  assert (He : eff_mode m' mac = MODE_STRICT) by (unfold eff_mode; rewrite Hb; reflexivity).
+  apply (strict_iff_equal_v6 m' f mac _ Hf He). exists v2. repeat split; [exact Hb|cbn; discriminate].
 Qed.
